@@ -12,7 +12,7 @@ FP = "python/filepath.py"
 SOB = "persisted/sob.py"
 QS = "twisted.python.filepath.FilePath.setContent"
 QP = "twisted.persisted.sob.Persistent"
-TECHNIQUE = "atomic-replace path rule (CFG order + path-variable provenance) with per-path symbolic names"
+TECHNIQUE = "atomic-replace CFG order + argument provenance, symbolic per-path file names"
 EXPLANATION = (
     "Decides for FilePath.setContent and sob.Persistent.save/_saveTemp: (1) the only handle opened for writing is on the "
     "temporary (temporarySibling(ext) / the second name of _getFilename), (2) the write happens inside a with block that is "
@@ -24,7 +24,9 @@ EXPLANATION = (
     "The handles the content goes through (FilePath.create/open, _saveTemp's open) are buffered, so a short write is retried or raises before the rename. "
     "Not decided: atomicity of rename itself, fsync/durability. "
     "Every anchor function is also checked to be entered on every call (no memoising/wrapping decorator, duplicate definition or rebinding). "
+    "Methods: every clause is decided structurally; the temporary-differs-from-final clause is a symbolic argument per CFG path (same variable parts, different constant length), not a sample. "
 )
+RULE_KINDS = {"*": "structural"}     # CFG order / reachability through the completed write, provenance of rename arguments, per-path symbolic names (length argument)
 ASSUMPTIONS = [
     "the rules read a normalised view of the anchored modules (sa/props/_lib_j.Normaliser): private helpers expanded at their call sites, module constants and single-assignment pure temporaries substituted, loops over constant tuples unrolled; evaluation order inside one statement is not modelled",
    "os.rename within one directory is atomic", "a with block closes (flushes) the file on exit"]
